@@ -125,12 +125,25 @@ class Tmatrix(ScatteringTheory):
 
     def _run_tmat(self, args):
         med_wavelen = args[2]
+        phi = args[13] * np.pi / 180
         nang = args[-1]
         s11, s12, s21, s22 = ampld(*args)
         for s in [s11, s12, s21, s22]:
             s *= (-2j*np.pi/med_wavelen)
-        scat_matr = np.array([[s11, s12], [s21, s22]]).transpose()
-        return scat_matr
+        # ampld returns the amplitude matrix in Mishchenko's convention:
+        # (E_theta, E_phi) scattered in terms of (E_x, E_y) incident
+        # for light incident along z. Convert to the Bohren & Huffman
+        # convention used by the rest of holopy, where both fields are
+        # decomposed parallel and perpendicular to the scattering plane:
+        # E_par = E_theta, E_perp = -E_phi, and the incident
+        # E_x = cos(phi) E_par + sin(phi) E_perp,
+        # E_y = sin(phi) E_par - cos(phi) E_perp
+        cphi = np.cos(phi)
+        sphi = np.sin(phi)
+        scat_matr = np.array(
+            [[s11 * cphi + s12 * sphi, s11 * sphi - s12 * cphi],
+             [-(s21 * cphi + s22 * sphi), -(s21 * sphi - s22 * cphi)]])
+        return np.moveaxis(scat_matr, -1, 0)
 
     def raw_fields(self, pos, scatterer, medium_wavevec, medium_index,
                     illum_polarization):
@@ -153,10 +166,7 @@ class Tmatrix(ScatteringTheory):
 
         for i, point in enumerate(pos.T):
             kr, theta, phi = point
-            # TODO: figure out why postfactor is needed -- it is not used in dda.py
-            postfactor = np.array([[np.cos(phi),np.sin(phi)],
-                                   [-np.sin(phi),np.cos(phi)]])
-            escat_sph = mieangfuncs.calc_scat_field(kr, phi,
-                                    np.dot(scat_matr[i],postfactor), [1,0])
+            escat_sph = mieangfuncs.calc_scat_field(kr, phi, scat_matr[i],
+                                                    [1, 0])
             fields[i] = mieangfuncs.fieldstocart(escat_sph, theta, phi)
         return fields.T
